@@ -83,8 +83,9 @@ def main():
     ap.add_argument("--checks", default="all")
     ap.add_argument("--jobs", type=int, default=4)
     ap.add_argument("--no-confirm", action="store_true")
+    ap.add_argument("--root", default="seeded", help="seeded (expect VIOLATION) or neutral (expect silence)")
     a = ap.parse_args()
-    root = VERIF / "seeded"
+    root = VERIF / a.root
     dirs = sorted(d for d in root.iterdir() if d.is_dir() and (d / "patch.diff").exists())
     if a.ids:
         want = set(a.ids.split(","))
